@@ -135,6 +135,24 @@ class Summaries:
         for _ in range(3):
             for name, f in fs.items():
                 self.returns[name] = self._ret_kind(f)
+        # parameters a static helper releases on every path (it takes over the
+        # caller's reference, like a stealing API)
+        self.consumes = {}
+        for name, f in fs.items():
+            g = ccfg(f)
+            idx = set()
+            for k, (pname, ptype) in enumerate(getattr(f, 'params', []) or []):
+                if 'PyObject' not in ptype or '**' in ptype:
+                    continue
+                rel = lambda n, pname=pname: any(
+                    c.a[1] and is_var(c.a[1][0], pname)
+                    for c in node_calls(n, 'Py_DECREF') + node_calls(n, 'Py_XDECREF')
+                    + node_calls(n, 'Py_CLEAR'))
+                reb = [n for n in g.nodes if pname in c_assigned(n)]
+                if not reb and g.must_pass_after(g.entry, rel):
+                    idx.add(k)
+            if idx:
+                self.consumes[name] = idx
 
     def may_run_python(self, callee, strict=True):
         """strict: DECREF-class calls count (destructors)."""
@@ -149,12 +167,24 @@ class Summaries:
     def _ret_kind(self, f):
         g = ccfg(f)
         kinds = set()
+        rets = []
         for r in returns(g):
             v = r.e.a[0]
+            if v is not None and v.k == 'cond':
+                rets += [(r, v.a[1]), (r, v.a[2])]
+            else:
+                rets.append((r, v))
+        for r, v in rets:
             if v is None or v.k in ('null', 'const'):
                 continue
             if v.k == 'call':
-                kinds.add('borrowed' if v.a[0] in BORROWED else 'new')
+                if v.a[0] in self.u.funcs and v.a[0] != f.name:
+                    kinds.add('borrowed' if self.returns.get(v.a[0]) == 'borrowed'
+                              else 'new')
+                elif v.a[0] == f.name:
+                    pass
+                else:
+                    kinds.add('borrowed' if v.a[0] in BORROWED else 'new')
                 continue
             if v.k != 'var':
                 kinds.add('new')
@@ -346,15 +376,30 @@ class Borrow:
                         if is_var(c.a[1][0], var):
                             return True
                     return False
+                def null_edge(n, lab, m, var=var):
+                    # leaving a test along the edge on which `var` is NULL: the
+                    # pointer is not dangling there, it is absent
+                    if n.kind != 'test' or n.e is None or lab not in ('T', 'F'):
+                        return False
+                    t, truth = n.e, lab == 'T'
+                    while t.k == 'un' and t.a[0] == '!':
+                        t, truth = t.a[1], not truth
+                    if t.k == 'var' and t.a[0] == var:
+                        return not truth
+                    if t.k == 'bin' and t.a[0] in ('==', '!=') and is_var(t.a[1], var) \
+                            and t.a[2] is not None and t.a[2].k == 'null':
+                        return truth if t.a[0] == '==' else not truth
+                    return False
+
                 def reach_incl(start):
-                    inner = g.reach(start, avoid=stop)
+                    inner = g.reach(start, avoid=stop, skip_edge=null_edge)
                     out = set(inner)
                     for n in g.nodes:
                         if n.id in inner or n is start:
                             for m, lab in n.succ:
                                 out.add(m.id)
                     return out
-                reach1 = g.reach(d, avoid=stop)
+                reach1 = g.reach(d, avoid=stop, skip_edge=null_edge)
                 for cnode in g.nodes:
                     if cnode.id not in reach1:
                         continue
@@ -483,8 +528,10 @@ class Balance:
             self.rebound = set()
             self.ints = {}
             self.nonnull = set()
+            own = {f.params[k][0] for k in self.s.consumes.get(fname, set())
+                   if k < len(f.params)}
             for p in params:
-                st[p] = 'borrowed'
+                st[p] = 'owned' if p in own else 'borrowed'
             if not self._feasible(path):
                 continue
             npaths += 1
@@ -493,6 +540,9 @@ class Balance:
                 if e is None:
                     continue
                 if n.kind == 'test':
+                    if any(x.k in ('call', 'assign') for x in e.walk()):
+                        self._effects(e, st, unchecked, none_alias, note, path[:i + 1], n,
+                                      fname, accepted)
                     self._test(e, lab, st, unchecked, none_alias)
                     # dereference of an unchecked NEW result inside the test
                     continue
@@ -518,8 +568,13 @@ class Balance:
                               fname, accepted)
                 if e.k == 'return':
                     v = e.a[0]
-                    retvar = v.a[0] if v is not None and v.k == 'var' else None
-                    if retvar is not None:
+                    retvars = []
+                    if v is not None and v.k == 'var':
+                        retvars = [v.a[0]]
+                    elif v is not None and v.k == 'cond':
+                        retvars = [x.a[0] for x in (v.a[1], v.a[2])
+                                   if x is not None and x.k == 'var']
+                    for retvar in retvars:
                         s = st.get(retvar)
                         src = self.alias.get(retvar)
                         if s == 'borrowed' and src and st.get(src) == 'owned':
@@ -534,8 +589,6 @@ class Balance:
                                 self.s.returns.get(fname) != 'borrowed' and \
                                 'PyObject' in f.ret:
                             note('return-borrowed', retvar, path[:i + 1], n)
-                    elif v is not None and v.k == 'call':
-                        pass
                     for var, s in st.items():
                         if s == 'owned':
                             note('leak', var, path[:i + 1], n,
@@ -624,6 +677,8 @@ class Balance:
             v = e.a[1].a[0]
             is_none = (lab == 'T') == (e.a[0] == '==')
             if is_none:
+                # equal to Py_None: in particular not NULL
+                unchecked.pop(v, None)
                 none_alias.add(v)
             else:
                 none_alias.discard(v)
@@ -671,6 +726,15 @@ class Balance:
                             st[v] = 'owned'
                 elif nm == 'PyDict_SetItem' and len(args) == 3 and args[2].k == 'var':
                     self.held.add(args[2].a[0])
+                elif nm in getattr(self.s, 'consumes', {}):
+                    for k in self.s.consumes[nm]:
+                        if k < len(args) and args[k] is not None and args[k].k == 'var':
+                            v = args[k].a[0]
+                            if st.get(v) == 'owned':
+                                st[v] = 'moved'
+                            elif st.get(v) == 'borrowed' and self.alias.get(v) and \
+                                    st.get(self.alias[v]) == 'owned':
+                                st[self.alias[v]] = 'moved'
                 elif nm in STEALS and len(args) > STEALS[nm]:
                     a = args[STEALS[nm]]
                     if a.k == 'var' and st.get(a.a[0]) == 'owned':
@@ -700,7 +764,15 @@ class Balance:
             if v in getattr(self, 'params', ()):
                 self.rebound.add(v)
             if st.get(v) == 'owned' and not (val is not None and mentions(val, v)):
-                note('leak', v, path, node, 'owned reference overwritten')
+                heirs = [w for w, src in self.alias.items()
+                         if src == v and st.get(w) == 'borrowed']
+                if heirs:
+                    # another local still refers to the object: it carries the
+                    # reference from here on (`unstored = result; result = NULL`)
+                    st[heirs[0]] = 'owned'
+                    self.alias.pop(heirs[0], None)
+                else:
+                    note('leak', v, path, node, 'owned reference overwritten')
             unchecked.pop(v, None)
             none_alias.discard(v)
             self.alias.pop(v, None)
